@@ -1,6 +1,7 @@
 package main
 
 import (
+	"hash/fnv"
 	"bytes"
 	"context"
 	"fmt"
@@ -161,8 +162,11 @@ func sanitize(s string) string {
 		}
 	}
 	r := sb.String()
-	if len(r) > 150 {
-		r = r[:150]
+	if len(r) > 120 {
+		// long names are cut, but never onto each other: two obligations must not share a query or replay file
+		h := fnv.New64a()
+		h.Write([]byte(s))
+		r = fmt.Sprintf("%s_%x", r[:110], h.Sum64())
 	}
 	return r
 }
